@@ -39,7 +39,27 @@ def _interrupted_longer_than_max(p, v):
     return False
 
 
+def _xlsx_row_collision(p, v):
+    """Two assignments of one resource whose Excel cell ranges intersect (a zero-length assignment
+    at the start of another one, or overlapping assignments of a cumulative worker)."""
+    rec = v.get("detail", {}).get("record") or {}
+    sol = rec.get("sol")
+    if not sol:
+        return False
+    def rng(a):
+        s, e = a[1], a[2]
+        return (s + 1, e) if e - s > 1 else (s + 1, s + 1)
+    for r in sol["resources"]:
+        rs = [rng(a) for a in r["assignments"]]
+        for i in range(len(rs)):
+            for j in range(i + 1, len(rs)):
+                if rs[i][0] <= rs[j][1] and rs[j][0] <= rs[i][1]:
+                    return True
+    return False
+
+
 PREDICATES = {
+    "xlsx_row_collision": _xlsx_row_collision,
     # name -> function(problem, violation) -> bool
     "lost:interrupted_variable_task_longer_than_max": _interrupted_longer_than_max,
     "task_loads_and_unloads_same_buffer":
